@@ -82,14 +82,24 @@ func NewDocumentLoader(ipfsCli IPFSClient, ipfsGW string,
 	return loader
 }
 
+// maxAlternateHops is the number of rel="alternate" links that are followed
+// for one document. Pages that name each other (or themselves) as alternate
+// would otherwise be followed forever.
+const maxAlternateHops = 10
+
 func (d *documentLoader) LoadDocument(
 	u string) (doc *ld.RemoteDocument, err error) {
+	return d.loadDocument(u, 0)
+}
+
+func (d *documentLoader) loadDocument(
+	u string, hops int) (doc *ld.RemoteDocument, err error) {
 
 	const ipfsPrefix = "ipfs://"
 
 	switch {
 	case strings.HasPrefix(u, "http://") || strings.HasPrefix(u, "https://"):
-		return d.loadDocumentFromHTTP(u)
+		return d.loadDocumentFromHTTP(u, hops)
 
 	case strings.HasPrefix(u, ipfsPrefix):
 		// supported URLs:
@@ -105,7 +115,7 @@ func (d *documentLoader) LoadDocument(
 		case d.ipfsCli != nil:
 			doc.Document, err = d.loadDocumentFromIPFSNode(u)
 		case d.ipfsGW != "":
-			doc.Document, err = d.loadDocumentFromIPFSGW(u)
+			doc.Document, err = d.loadDocumentFromIPFSGW(u, hops)
 		default:
 			err = ld.NewJsonLdError(ld.LoadingDocumentFailed,
 				errors.New("ipfs is not configured"))
@@ -145,11 +155,11 @@ func (d *documentLoader) loadDocumentFromIPFSNode(
 }
 
 func (d *documentLoader) loadDocumentFromIPFSGW(
-	ipfsURL string) (any, error) {
+	ipfsURL string, hops int) (any, error) {
 
 	ipfsURL = strings.TrimRight(d.ipfsGW, "/") + "/ipfs/" +
 		strings.TrimLeft(ipfsURL, "/")
-	doc, err := d.loadDocumentFromHTTP(ipfsURL)
+	doc, err := d.loadDocumentFromHTTP(ipfsURL, hops)
 	if err != nil {
 		return nil, err
 	}
@@ -157,7 +167,7 @@ func (d *documentLoader) loadDocumentFromIPFSGW(
 }
 
 func (d *documentLoader) loadDocumentFromHTTP(
-	u string) (*ld.RemoteDocument, error) {
+	u string, hops int) (*ld.RemoteDocument, error) {
 
 	var doc *ld.RemoteDocument
 	var cacheFound bool
@@ -238,8 +248,13 @@ func (d *documentLoader) loadDocumentFromHTTP(
 			alternateLink[0]["type"] == ld.ApplicationJSONLDType &&
 			!rApplicationJSON.MatchString(contentType) {
 
+			if hops >= maxAlternateHops {
+				return nil, ld.NewJsonLdError(ld.LoadingDocumentFailed,
+					"too many alternate links")
+			}
+
 			finalURL := ld.Resolve(u, alternateLink[0]["target"])
-			doc, err = d.LoadDocument(finalURL)
+			doc, err = d.loadDocument(finalURL, hops+1)
 			if err != nil {
 				return nil, ld.NewJsonLdError(ld.LoadingDocumentFailed, err)
 			}
